@@ -78,6 +78,22 @@ def tasks_c03(tier, seed):
     return ts
 
 
+def tasks_c04(tier, seed):
+    return seq("c04", tier, shards=16)
+
+
+def tasks_c05(tier, seed):
+    return seq("c05", tier, shards=12) + seq("c04", tier, shards=8)
+
+
+def tasks_c07(tier, seed):
+    return seq("c07", tier, shards=4) + seq("c04", tier, shards=8) + seq("c08", tier, shards=8)
+
+
+def tasks_c08(tier, seed):
+    return seq("c08", tier, shards=16)
+
+
 def tasks_c06(tier, seed):
     return seq("c06", tier, shards=16)
 
@@ -96,6 +112,15 @@ PLANS = {
                             "sequential consistency; data-race freedom outside visible operations is checked by C16"]},
     "C02": {"tasks": tasks_c01, "level": "model_checking",
             "assumptions": ["same as C01"]},
+    "C04": {"tasks": tasks_c04, "level": "model_checking",
+            "assumptions": ["one request at a time on a fresh single-worker service; concurrency of requests is covered by C01/C02 scenarios",
+                            "quiescence of the controlled scheduler makes absence of a reply final"]},
+    "C05": {"tasks": tasks_c05, "level": "model_checking",
+            "assumptions": ["reference dispatcher is table driven (most specific pattern, exact method, *, new)", "handler outcome mapping is checked in the c04 enumeration"]},
+    "C07": {"tasks": tasks_c07, "level": "model_checking",
+            "assumptions": ["independent validator encodes the documented message shapes", "unmarshalable event payloads publish nothing (only responses must degrade to internalError)"]},
+    "C08": {"tasks": tasks_c08, "level": "model_checking",
+            "assumptions": ["a panic inside a With callback is contained by the harness (go-res does not recover it)"]},
     "C06": {"tasks": tasks_c06, "level": "model_checking",
             "assumptions": ["reference matcher = brute-force token-wise most-specific match", "patterns with a repeated tag name and listeners without handlers are outside the enumerated space"]},
     "C17": {"tasks": tasks_c17, "level": "model_checking",
